@@ -354,6 +354,80 @@ def _canon_enumerate(tree: ast.AST) -> int:
     return n
 
 
+def _stmt_lists_of(tree: ast.AST):
+    for parent in ast.walk(tree):
+        for fld in ("body", "orelse", "finalbody"):
+            lst = getattr(parent, fld, None)
+            if isinstance(lst, list) and lst and isinstance(lst[0], ast.stmt):
+                yield lst
+        if isinstance(parent, ast.Try):
+            for h in parent.handlers:
+                yield h.body
+
+
+def _canon_setdefault(tree: ast.AST) -> int:
+    """Normal form: `x = d.setdefault(k, c)` (d, k plain chains, c a constant) is presented as `if k not in d: d[k] = c` followed by
+    `x = d[k]`; the bare statement `d.setdefault(k, c)` as the `if` alone."""
+    n = 0
+    for lst in _stmt_lists_of(tree):
+        i = 0
+        while i < len(lst):
+            st = lst[i]
+            call = st.value if isinstance(st, (ast.Assign, ast.Expr)) else None
+            if isinstance(call, ast.Call) and isinstance(call.func, ast.Attribute) and call.func.attr == "setdefault" and len(call.args) == 2 \
+                    and not call.keywords and isinstance(call.args[1], ast.Constant) \
+                    and all(isinstance(x, (ast.Name, ast.Attribute, ast.Load)) for a in (call.func.value, call.args[0]) for x in ast.walk(a)) \
+                    and (isinstance(st, ast.Expr) or (len(st.targets) == 1 and isinstance(st.targets[0], ast.Name))):
+                d, k, c = call.func.value, call.args[0], call.args[1]
+                import copy as _copy
+                guard = ast.If(test=ast.Compare(left=_copy.deepcopy(k), ops=[ast.NotIn()], comparators=[_copy.deepcopy(d)]),
+                               body=[ast.Assign(targets=[ast.Subscript(value=_copy.deepcopy(d), slice=_copy.deepcopy(k), ctx=ast.Store())], value=c)],
+                               orelse=[])
+                new = [guard]
+                if isinstance(st, ast.Assign):
+                    new.append(ast.Assign(targets=st.targets, value=ast.Subscript(value=d, slice=k, ctx=ast.Load())))
+                for x in new:
+                    ast.copy_location(x, st)
+                    ast.fix_missing_locations(x)
+                lst[i:i + 1] = new
+                n += 1
+                i += len(new)
+                continue
+            i += 1
+    return n
+
+
+def _canon_append_loop(tree: ast.AST) -> int:
+    """Normal form: `xs = []` immediately followed by `for v in it:` whose body only appends to xs (possibly under `if`s without else)
+    is presented as `xs = [<elt> for v in it if ...]`."""
+    n = 0
+    for lst in _stmt_lists_of(tree):
+        i = 0
+        while i + 1 < len(lst):
+            a, b = lst[i], lst[i + 1]
+            tgt = a.targets[0] if isinstance(a, ast.Assign) and len(a.targets) == 1 else (a.target if isinstance(a, ast.AnnAssign) and a.value is not None else None)
+            if isinstance(tgt, ast.Name) and isinstance(a.value, ast.List) and not a.value.elts and isinstance(b, ast.For) and not b.orelse \
+                    and len(b.body) == 1:
+                conds = []
+                inner = b.body[0]
+                while isinstance(inner, ast.If) and not inner.orelse and len(inner.body) == 1:
+                    conds.append(inner.test)
+                    inner = inner.body[0]
+                c = inner.value if isinstance(inner, ast.Expr) else None
+                if isinstance(c, ast.Call) and isinstance(c.func, ast.Attribute) and c.func.attr == "append" and isinstance(c.func.value, ast.Name) \
+                        and c.func.value.id == tgt.id and len(c.args) == 1 and not c.keywords \
+                        and not any(isinstance(x, ast.Name) and x.id == tgt.id for e in [c.args[0], b.iter] + conds for x in ast.walk(e)) \
+                        and not any(isinstance(x, (ast.Await, ast.Yield, ast.NamedExpr)) for x in ast.walk(b)):
+                    comp = ast.ListComp(elt=c.args[0], generators=[ast.comprehension(target=b.target, iter=b.iter, ifs=conds, is_async=0)])
+                    a.value = ast.copy_location(comp, b)
+                    ast.fix_missing_locations(a)
+                    del lst[i + 1]
+                    n += 1
+                    continue
+            i += 1
+    return n
+
+
 def _canon_items(tree: ast.AST) -> int:
     """Normal form: `for k in d:` whose first statement is `v = d[k]` (d a name or attribute chain, v bound nowhere else in the
     loop) is presented to the rules as `for k, v in d.items():`."""
@@ -443,7 +517,7 @@ class Index:
         from .normalform import dehoist_chains
         self.dehoisted = 0
         for mi in self.modules.values():
-            self.canonicalised += _canon_extend(mi.tree) + _canon_enumerate(mi.tree)
+            self.canonicalised += _canon_setdefault(mi.tree) + _canon_extend(mi.tree) + _canon_append_loop(mi.tree) + _canon_enumerate(mi.tree)
             self.dehoisted += dehoist_chains(mi.tree)
             self.canonicalised += _canon_returns(mi.tree) + _canon_augassign(mi.tree) + _canon_items(mi.tree) + _canon_allany(mi.tree) + _canon_tuple_assign(mi.tree) + _canon_membership(mi.tree)
         for mi in self.modules.values():
